@@ -1569,7 +1569,10 @@ class XMLSchemaBase(XsdValidator, ElementPathMixin[Union[SchemaType, XsdElement]
         namespaces = context.namespaces
 
         namespace = resource.namespace or namespaces.get('', '')
-        schema = self.get_schema(namespace)
+        try:
+            schema = self.get_schema(namespace)
+        except KeyError:
+            schema = self
 
         if path:
             selector = resource.iterfind(path, namespaces)
